@@ -526,7 +526,12 @@ where
         };
         match verify_with::<B, H>(decoded, &h.inputs, &policy) {
             Ok(Ok(())) => stats::count("outcome.accepted", 1),
-            Ok(Err(_)) => stats::count("outcome.rejected", 1),
+            Ok(Err(e)) => {
+                stats::count("outcome.rejected", 1);
+                if matches!(e, verifier::VerifierError::UnsupportedFieldExtension(_)) {
+                    stats::probe("probe.proof_claims_an_extension_the_field_does_not_support");
+                }
+            },
             Err(p) => {
                 let pol = ["honest-option-set", "proofs-own-options", "min-conjectured", "min-proven"][policy_idx as usize];
                 fail!("panic", p.site(), "{} (policy {pol})", ctx("verify", &p.msg));
